@@ -52,15 +52,20 @@ var wideTypes = []*wtype{
 	{"myUint64", "int", 64, false, 2, runInt[myUint64]},
 	{"myInt", "int", mbits.UintSize, true, 1, runInt[myInt]},
 	{"myUintptr", "int", mbits.UintSize, false, 1, runInt[myUintptr]},
+	{"methInt8", "int", 8, true, 1, runInt[methInt8]}, // named types whose own methods (IsZero, String, Less, Compare, Abs) contradict the operators
+	{"methInt64", "int", 64, true, 2, runInt[methInt64]},
+	{"methUint64", "int", 64, false, 1, runInt[methUint64]},
 	{"float32", "float", 32, true, 4, runFloat[float32]},
 	{"float64", "float", 64, true, 5, runFloat[float64]},
 	{"myFloat32", "float", 32, true, 1, runFloat[myFloat32]},
 	{"myFloat64", "float", 64, true, 2, runFloat[myFloat64]},
+	{"methFloat64", "float", 64, true, 2, runFloat[methFloat64]},
 	{"complex64", "complex", 64, true, 1, runComplex[complex64]},
 	{"complex128", "complex", 128, true, 2, runComplex[complex128]},
 	{"myComplex128", "complex", 128, true, 1, runComplex[myComplex128]},
 	{"string", "string", 0, false, 3, runString[string]},
 	{"myString", "string", 0, false, 1, runString[myString]},
+	{"methString", "string", 0, false, 1, runString[methString]},
 }
 
 func wideType(name string) *wtype {
@@ -244,14 +249,42 @@ func fromInt[T typ.Integer](x T, signed bool) *big.Int {
 	return new(big.Int).SetUint64(uint64(x))
 }
 
-func callText(fn, tn string, vals any) string { return fmt.Sprintf("%s[%s]%v", fn, tn, vals) }
+func callText(fn, tn string, vals any) string {
+	s := fmt.Sprintf("%v", vals)
+	if len(s) > 400 {
+		s = s[:300] + " ... " + s[len(s)-80:] + " (argument list shortened, see the replay file)"
+	}
+	return fmt.Sprintf("%s[%s]%s", fn, tn, s)
+}
+
+// argsClass is the label of an argument count: exact up to 8, then by size class.
+func argsClass(n int) string {
+	switch {
+	case n <= 8:
+		return strconv.Itoa(n)
+	case n <= 32:
+		return "9..32"
+	case n <= 64:
+		return "33..64"
+	case n <= 256:
+		return "65..256"
+	case n <= 1024:
+		return "257..1024"
+	case n <= 4096:
+		return "1025..4096"
+	}
+	return ">4096"
+}
+
+// classifyMax: only the first arguments of a long list are classified (labels and non-triviality only; every argument is checked).
+const classifyMax = 64
 
 func runInt[T typ.Integer](c Wide, wt *wtype) pbt.Outcome {
 	n := len(c.Bits)
 	args := make([]T, n)
 	vals := make([]*big.Int, n)
 	var cl intClass
-	out := pbt.Outcome{Labels: []string{"fn:" + c.Fn, "type:" + c.Type, "kind:" + map[bool]string{true: "int", false: "uint"}[wt.signed] + strconv.Itoa(wt.bits), "args=" + strconv.Itoa(n)}}
+	out := pbt.Outcome{Labels: []string{"fn:" + c.Fn, "type:" + c.Type, "kind:" + map[bool]string{true: "int", false: "uint"}[wt.signed] + strconv.Itoa(wt.bits), "args=" + argsClass(n)}}
 	if ^T(0) < 0 != wt.signed {
 		return pbt.Fail("harness error: signedness table wrong for %s", c.Type)
 	}
@@ -262,7 +295,7 @@ func runInt[T typ.Integer](c Wide, wt *wtype) pbt.Outcome {
 		if fromInt(args[i], wt.signed).Cmp(vals[i]) != 0 {
 			return pbt.Fail("harness error: %s(%#x) decoded as %v, exact value %v", c.Type, b, args[i], vals[i])
 		}
-		if wt.classifyInt(vals[i], &cl) {
+		if i < classifyMax && wt.classifyInt(vals[i], &cl) {
 			out.NonTrivial = true
 		}
 	}
@@ -509,7 +542,7 @@ func runFloat[T typ.Float](c Wide, wt *wtype) pbt.Outcome {
 	args := make([]T, n)
 	vals := make([]float64, n)
 	var cl floatClass
-	out := pbt.Outcome{Labels: []string{"fn:" + c.Fn, "type:" + c.Type, "kind:float" + strconv.Itoa(wt.bits), "args=" + strconv.Itoa(n)}}
+	out := pbt.Outcome{Labels: []string{"fn:" + c.Fn, "type:" + c.Type, "kind:float" + strconv.Itoa(wt.bits), "args=" + argsClass(n)}}
 	for i, b := range c.Bits {
 		vals[i] = wt.floatOf(b)
 		if vals[i] != vals[i] {
@@ -519,7 +552,7 @@ func runFloat[T typ.Float](c Wide, wt *wtype) pbt.Outcome {
 		if float64(args[i]) != vals[i] {
 			return pbt.Fail("harness error: %s conversion of %v not exact", c.Type, vals[i])
 		}
-		if classifyFloat(vals[i], wt.bits, &cl) {
+		if i < classifyMax && classifyFloat(vals[i], wt.bits, &cl) {
 			out.NonTrivial = true
 		}
 	}
@@ -673,7 +706,7 @@ func runComplex[T typ.Complex](c Wide, wt *wtype) pbt.Outcome {
 	args := make([]T, n)
 	vals := make([]complex128, n)
 	var cl floatClass
-	out := pbt.Outcome{Labels: []string{"fn:" + c.Fn, "type:" + c.Type, "kind:complex" + strconv.Itoa(wt.bits), "args=" + strconv.Itoa(n)}}
+	out := pbt.Outcome{Labels: []string{"fn:" + c.Fn, "type:" + c.Type, "kind:complex" + strconv.Itoa(wt.bits), "args=" + argsClass(n)}}
 	for i := 0; i < n; i++ {
 		re, im := wt.floatOf(c.Bits[2*i]), wt.floatOf(c.Bits[2*i+1])
 		if re != re || im != im {
@@ -684,8 +717,8 @@ func runComplex[T typ.Complex](c Wide, wt *wtype) pbt.Outcome {
 		if complex128(args[i]) != vals[i] {
 			return pbt.Fail("harness error: %s conversion of %v not exact", c.Type, vals[i])
 		}
-		a := classifyFloat(re, wt.partBits(), &cl)
-		b := classifyFloat(im, wt.partBits(), &cl)
+		a := i < classifyMax && classifyFloat(re, wt.partBits(), &cl)
+		b := i < classifyMax && classifyFloat(im, wt.partBits(), &cl)
 		if a || b {
 			out.NonTrivial = true
 		}
@@ -738,10 +771,18 @@ func runComplex[T typ.Complex](c Wide, wt *wtype) pbt.Outcome {
 
 // ---------------------------------------------------------------- strings
 
+// abbrevQ quotes a string, shortening long ones to head, tail and length.
+func abbrevQ(s string) string {
+	if len(s) <= 80 {
+		return strconv.Quote(s)
+	}
+	return fmt.Sprintf("%q...%q (%d bytes)", s[:24], s[len(s)-24:], len(s))
+}
+
 func runString[T ~string](c Wide, wt *wtype) pbt.Outcome {
 	n := len(c.Strs)
 	args := make([]T, n)
-	out := pbt.Outcome{Labels: []string{"fn:" + c.Fn, "type:" + c.Type, "kind:string", "args=" + strconv.Itoa(n)}}
+	out := pbt.Outcome{Labels: []string{"fn:" + c.Fn, "type:" + c.Type, "kind:string", "args=" + argsClass(n)}}
 	// reference order: bytes.Compare on the raw bytes
 	cmp := func(a, b string) int { return bytes.Compare([]byte(a), []byte(b)) }
 	hasEmpty, related := false, false
@@ -750,7 +791,7 @@ func runString[T ~string](c Wide, wt *wtype) pbt.Outcome {
 		if s == "" {
 			hasEmpty = true
 		}
-		for _, p := range c.Strs[:i] {
+		for _, p := range c.Strs[:min(i, classifyMax)] {
 			if strings.HasPrefix(p, s) || strings.HasPrefix(s, p) {
 				related = true
 			}
@@ -764,9 +805,13 @@ func runString[T ~string](c Wide, wt *wtype) pbt.Outcome {
 	if related {
 		out.Labels = append(out.Labels, "args:prefix-or-equal")
 	}
-	call := fmt.Sprintf("%s[%s]%q", c.Fn, c.Type, c.Strs)
-	bad := func(got, want any, why string) pbt.Outcome {
-		return pbt.Fail("typ.%s = %q, want %v (%s)", call, got, want, why)
+	call := fmt.Sprintf("%q", c.Strs)
+	if len(call) > 400 {
+		call = call[:300] + " ... " + call[len(call)-80:] + " (argument list shortened, see the replay file)"
+	}
+	call = c.Fn + "[" + c.Type + "]" + call
+	bad := func(got string, want any, why string) pbt.Outcome {
+		return pbt.Fail("typ.%s = %s, want %v (%s)", call, abbrevQ(got), want, why)
 	}
 	switch c.Fn {
 	case "Min", "Max":
@@ -782,10 +827,10 @@ func runString[T ~string](c Wide, wt *wtype) pbt.Outcome {
 				isArg = true
 			}
 			if c.Fn == "Min" && cmp(got, s) > 0 {
-				return bad(got, fmt.Sprintf("<= %q", s), "result must be <= every argument")
+				return bad(got, "<= "+abbrevQ(s), "result must be <= every argument")
 			}
 			if c.Fn == "Max" && cmp(got, s) < 0 {
-				return bad(got, fmt.Sprintf(">= %q", s), "result must be >= every argument")
+				return bad(got, ">= "+abbrevQ(s), "result must be >= every argument")
 			}
 		}
 		if !isArg {
@@ -808,7 +853,7 @@ func runString[T ~string](c Wide, wt *wtype) pbt.Outcome {
 			out.Labels = append(out.Labels, "clamp:inside")
 		}
 		if got := string(typ.Clamp(args[0], args[1], args[2])); got != want {
-			return bad(got, strconv.Quote(want), "v if lo <= v <= hi, else the nearer bound")
+			return bad(got, abbrevQ(want), "v if lo <= v <= hi, else the nearer bound")
 		}
 	case "Compare", "Less":
 		want := cmp(c.Strs[0], c.Strs[1])
@@ -1298,7 +1343,7 @@ var specWide = pbt.Register(&pbt.Spec[Wide]{
 	Property: "C20", Name: "C20.wide",
 	Rule: "case = one call fn[type](args): Min/Max (1..6 args), Clamp (lo <= hi), Clamp01, Sum/Product (0..6 args), Abs, Compare, Less, Digits10, DigitsSign10 " +
 		"at every integer type (int8..int64, int, uint8..uint64, uint, uintptr, named types), float32/float64 (+named), Sum/Product at complex64/complex128, " +
-		"Min/Max/Clamp/Compare/Less at string (+named). First a deterministic boundary grid (all boundary singles: 0, +-1, +-2, +-10^k, +-10^k+-1, extremes and neighbours, " +
+		"Min/Max/Clamp/Compare/Less at string (+named); the named types include methInt8/methInt64/methUint64/methFloat64/methString whose own IsZero/String/Less/Compare/Abs methods contradict the operators. First a deterministic boundary grid (all boundary singles: 0, +-1, +-2, +-10^k, +-10^k+-1, extremes and neighbours, " +
 		"float +-0/+-Inf/+-Max/subnormals/10^k+-ulp; pairs and triples over a reduced boundary set), then rapid draws (boundary-dense, any bit pattern, " +
 		"copies/neighbours of earlier arguments; NaN never generated). References: math/big exact arithmetic reduced modulo 2^bits, strconv and math/big decimal strings, " +
 		"same-order IEEE loops in the concrete type, bytes.Compare; Min/Max judged by validity (an argument, <=/>= all). " +
